@@ -975,6 +975,10 @@ free_task(_task_t t)
 			/* that's no good :O */
 			ECHS_NOTI_LOG("inconsistent table of tasks");
 			break;
+		} else if (UNLIKELY(task_ht[i].t != t)) {
+			/* T has been ejected already and
+			 * the slot belongs to a successor */
+			break;
 		}
 		task_ht[i] = (struct tmap_s){0U, NULL};
 	}
@@ -2607,6 +2611,13 @@ task update from user %d for task from user %d failed: permission denied",
 	/* otherwise proceed with the evacuation */
 	ECHS_NOTI_LOG("cancelling task 0x%x", oid);
 	ev_periodic_stop(EV_A_ &res->w);
+	if (res->nsim) {
+		/* children still refer to RES, take it off the table now and
+		 * leave the freeing to the child watcher of the last one */
+		task_ht[get_task_slot(oid)] = (struct tmap_s){0U, NULL};
+		res->w.reschedule_cb = NULL;
+		return 0;
+	}
 	free_task(res);
 	return 0;
 }
